@@ -169,6 +169,11 @@ class SimLock:
             return True
         return False
 
+    def _at_fork_reinit(self):
+        # what os.register_at_fork handlers of the standard library call in a forked child
+        # (concurrent.futures.thread registers one for a module-level lock at import)
+        self._owner = None
+
     def release(self):
         s = _sim()
         s.yield_('lk.rel', self.name)
@@ -202,6 +207,10 @@ class SimRLock:
     def __init__(self):
         s = current_sim()
         self.name = s.new_obj_name('RLock') if s else 'RLock?'
+        self._owner = None
+        self._count = 0
+
+    def _at_fork_reinit(self):
         self._owner = None
         self._count = 0
 
